@@ -797,7 +797,11 @@ impl<'a> LiveEvents<'a> {
 
             match raw {
                 Event::DocumentStart(_) => {
-                    // Found the start of the next document
+                    // Found the start of the next document. Let the budget see the document
+                    // boundary, so per-document counting restarts for it.
+                    if let Some(budget) = self.budget.as_mut() {
+                        let _ = budget.observe(&raw);
+                    }
                     self.reset_document_state();
                     self.produced_any_in_doc = false;
                     return true;
